@@ -19,6 +19,8 @@
 //!   scale.chk.ellipse.styled x y w h <style> n   scale.chk.ellipse.draw x y w h <style> n
 //!   scale.chk.rrect.styled x y w h <8 radii> <style> n      scale.chk.rrect.draw x y w h <8 radii> <style> n
 //!   scale.chk.poly.draw x0 y0 x1 y1 x2 y2 w n
+//!   scale.chk.drawsub via x y w h       a DIRECT `ImageDrawable::draw_sub_image` on a 5 x 3 1 bpp `ImageRaw` (via 0) or on its
+//!     sub-image (1, 1) 3 x 2 (via 1): `calls=<number of target calls>` (0 = rejected, 1 = drawn)
 //!   scale.chk.glyph imgW imgH cw ch sp bl ulOff ulH stOff stH mul colours ul st baseline x y <code points>
 //!     `MonoTextStyle::draw_string` with a user-defined `MonoFont` over a blank imgW x imgH atlas (glyph index
 //!     `(c - 32) * mul`); colours: bit 0 text colour, bit 1 background; ul / st: 0 none, 1 text colour, 2 custom;
@@ -35,7 +37,7 @@ use super::{b, biased, coord, gen_simple, guard, lds, ods, pds, rds, K, OFFS, XI
 use crate::common::*;
 use crate::shapes::{mdeg, parse_style};
 use embedded_graphics::{
-    image::ImageRaw,
+    image::{ImageDrawable, ImageDrawableExt, ImageRaw},
     mono_font::{DecorationDimensions, MonoFont, MonoTextStyleBuilder},
     pixelcolor::{BinaryColor, Rgb565},
     text::{renderer::TextRenderer, Baseline, DecorationColor},
@@ -704,6 +706,26 @@ pub fn generate(tier: Tier, rng: &mut Rng, emit: &mut dyn FnMut(String)) {
         let tail = format!("{} {} {} {} {} {}", rng.below(4), rng.below(3), rng.below(3), rng.below(4), x, y);
         emit(format!("scale.chk.glyph {} {} {}", f, tail, text_of(rng, nchars)));
     }
+
+    // ---- draw_sub_image called directly --------------------------------------------------------
+    let dxs: [i64; 19] = [i32::MIN as i64, -(1 << 31) + 1, -65536, -6, -5, -4, -1, 0, 1, 2, 4, 5, 6, 65536, (1 << 31) - 6, (1 << 31) - 3, (1 << 31) - 2, (1 << 31) - 1, 1 << 30];
+    let dws: [i64; 14] = [0, 1, 2, 3, 4, 5, 6, 65536, (1 << 31) - 1, 1 << 31, (1 << 31) + 1, u32::MAX as i64 - 5, u32::MAX as i64 - 1, u32::MAX as i64];
+    let mut k = 0u64;
+    for via in 0..2 {
+        for &x in &dxs {
+            for &y in &[i32::MIN as i64, -65536, -4, -3, -1, 0, 1, 2, 3, 4, 65536, (1 << 31) - 2, (1 << 31) - 1] {
+                for &w in &dws {
+                    for &h in &[0i64, 1, 2, 3, 4, 1 << 31, u32::MAX as i64 - 1, u32::MAX as i64] {
+                        let small = x.abs() <= 6 && y.abs() <= 4 && w <= 6 && h <= 4;
+                        k += 1;
+                        if small && (tier != Tier::Quick || k % 3 == 0) || !small && k % (if tier == Tier::Quick { 25 } else { 3 }) == 0 {
+                            emit(format!("scale.chk.drawsub {} {} {} {} {}", via, x, y, w, h));
+                        }
+                    }
+                }
+            }
+        }
+    }
 }
 
 fn tri(t: &mut Toks) -> Triangle {
@@ -794,6 +816,27 @@ impl DrawTarget for Log {
     }
     fn fill_solid(&mut self, area: &Rectangle, color: Rgb565) -> Result<(), Self::Error> {
         self.0.push(format!("fs:{}:{}", fmt_rect(area), color.num()));
+        Ok(())
+    }
+}
+/// counts the calls made on a `BinaryColor` target (colour iterators are drained)
+struct LogB(u32);
+impl Dimensions for LogB {
+    fn bounding_box(&self) -> Rectangle {
+        Rectangle::new(Point::new(-4096, -4096), Size::new(8192, 8192))
+    }
+}
+impl DrawTarget for LogB {
+    type Color = BinaryColor;
+    type Error = core::convert::Infallible;
+    fn draw_iter<I: IntoIterator<Item = Pixel<BinaryColor>>>(&mut self, pixels: I) -> Result<(), Self::Error> {
+        self.0 += 1;
+        let _ = pixels.into_iter().count();
+        Ok(())
+    }
+    fn fill_contiguous<I: IntoIterator<Item = BinaryColor>>(&mut self, _area: &Rectangle, colors: I) -> Result<(), Self::Error> {
+        self.0 += 1;
+        let _ = colors.into_iter().count();
         Ok(())
     }
 }
@@ -951,6 +994,25 @@ pub fn execute(kernel: &str, t: &mut Toks) -> Option<(String, bool)> {
             assert!(w >= 2, "scale.chk.poly.draw: stroke width below 2");
             let ds = pts.iter().all(|p| lds(*p)) && w <= 128;
             (guard(|| draw_calls(&Polyline::new(&pts).into_styled(PrimitiveStyle::with_stroke(Rgb565::from_num(9), w)), n)), ds)
+        }
+        "drawsub" => {
+            let via = t.u32();
+            let area = Rectangle::new(Point::new(t.i64() as i32, t.i64() as i32), Size::new(t.i64() as u32, t.i64() as u32));
+            let data = [0x5Au8; 3];
+            let ds = pds(area.top_left) && area.size.width <= 1280 && area.size.height <= 1280;
+            (
+                guard(|| {
+                    let raw = ImageRaw::<BinaryColor>::new(&data, Size::new(5, 3)).unwrap();
+                    let mut log = LogB(0);
+                    if via == 0 {
+                        raw.draw_sub_image(&mut log, &area).unwrap();
+                    } else {
+                        raw.sub_image(&Rectangle::new(Point::new(1, 1), Size::new(3, 2))).draw_sub_image(&mut log, &area).unwrap();
+                    }
+                    format!("calls={}", log.0)
+                }),
+                ds,
+            )
         }
         "glyph" => {
             let img = Size::new(t.u32(), t.u32());
